@@ -49,6 +49,10 @@ def jobs(tier):
                     'bounds': 'one call of check_exception: module path of got/want from %r, stack lines from a menu of %d, name 1..2 chars, message 1..%d chars (any ASCII), IGNORE_EXCEPTION_DETAIL symbolic, match=%s'
                               % (QS, 2 if q else 3, 2 if q else 3, variant),
                     'splits': [3, 6, 9, 12], 'query_timeout_s': 120 if q else 600})
+    # A'. multi-line messages: the message alphabet holds the line break (equality matching)
+    out.append({'ob': 'check_exception_unit_multiline', 'harness': 'unit', 'variant': 'eq', 'k': 1, 'ncap': 2, 'dcap': 3, 'stacks': 2, 'hdrws': False, 'dalph': 'a:\n',
+                'bounds': 'one call of check_exception: messages of 1..3 characters over {a, colon, LINE BREAK} on both sides, name 1..2 chars, IGNORE_EXCEPTION_DETAIL symbolic, match=eq',
+                'splits': [3, 6, 9, 12], 'query_timeout_s': 120 if q else 600})
     # B. the run loop around it
     cfgs = [('eq', 2, 2, 2)] if q else [('uf', 2, 2, 2), ('eq', 3, 1, 1)]
     for variant, k, ncap, dcap in cfgs:
@@ -80,7 +84,7 @@ class Base(Harness):
             self.base += c
             return s
         nalph = 'ab' if eq else WORD
-        dalph = 'ab:.' if eq else None
+        dalph = job.get('dalph', 'ab:.') if eq else None
         self.raises = [z3.Bool('raises%d' % i) for i in range(K)]
         self.wf = [z3.Int('wantform%d' % i) for i in range(K)]
         self.qg = [z3.Int('qgot%d' % i) for i in range(K)]
